@@ -32,6 +32,21 @@ CLAIMED = {
                 "utf8parse is transcribed and tied by correspondence only.",
         "technique": "Coq proof (table = by-range spec by kernel enumeration; parser refinement) + translator + differential correspondence",
     },
+    "C10": {
+        "text": "Machine-checked Coq theorems about a hand model of anstyle-lossy (distance with every i32 intermediate range-checked, the find_match / find_xterm_match "
+                "scan loops carrying (best_index, best_distance), the eight public conversions, Palette::get / Index / rgb_from_index): for every RGB colour and EVERY "
+                "16-entry palette the distance never overflows, lies in [0, 2^31) and is 0 exactly on equal colours; rgb_to_ansi / rgb_to_xterm / xterm_to_ansi return the "
+                "lowest index of minimal red-mean distance (candidates 16..255 for the 256 target, proved equal to the standard xterm cube and grey ramp); an exact entry maps "
+                "to the lowest index holding it; same-kind conversions are identities; indices 0-15 are the user palette; no conversion panics; model = executable spec. "
+                "XTERM_COLORS, VGA, WIN10_CONSOLE and the arms of xterm_to_ansi / into_ansi / from_ansi are translated on every run. Tie: differential execution of the real "
+                "crate vs extracted model and an independent minimum-search spec (quick: 2*10^5 colours x 10 palettes; thorough: all 2^24 colours x both shipped palettes, "
+                "2^20 colours for the 256 target).",
+        "design_ref": "DESIGN.md section 6, C10",
+        "note": "Trusted: Coq kernel (vm_compute for the shipped-table facts), translator, extraction (ExtrOcamlBasic), OCaml driver, Rust harness h-lossy. The distance is specified "
+                "on the crate's own integer scale; relative to the cited compuphase formula the crate halves the green weight (recorded in Spec/Lossy.v and Proofs/Lossy.v "
+                "green_weight_deviation_witness); the property text does not fix the weights. The private `distance` function is tied only through the results it induces.",
+        "technique": "Coq proof (generic first-minimum fold lemma, nia/lia range arithmetic, kernel enumeration for table facts) + translator + differential correspondence",
+    },
 }
 
 NOT_YET = {
